@@ -50,7 +50,7 @@ entries = []
 for n, (src, o) in sorted(prods.items()):
     entries.append({"id": f"C01-prod-{n}", "property": "C01", "status": "open", "key": {"type": "prod", "prod": n}, "what": f"production {n}: {what(o)}", "witness": src})
 for (n, lay, mode), (src, o) in sorted(layouts.items()):
-    entries.append({"id": f"C01-layout-{n}-{lay}-{mode}", "property": "C01", "status": "open", "key": {"type": "layout", "prod": n, "layout": lay, "mode": mode}, "what": f"production {n} in layout {lay}, mode {mode}: {what(o)}", "witness": src})
+    entries.append({"id": f"C01-layout-{n}-{lay}-{mode}", "property": "C01", "status": "open", "key": {"type": "layout", "prod": n, "layout": lay, "mode": mode}, "what": (f"statement of CPython's own syntax tests (Lib/test): {what(o)}" if n == "Corpus" else f"production {n} in layout {lay}, mode {mode}: {what(o)}"), "witness": src})
 for (r, s, c), (src, o) in sorted(pairs.items()):
     entries.append({"id": f"C01-pair-{r}-{s}-{c}", "property": "C01", "status": "open", "key": {"type": "pair", "root": r, "slot": s, "child": c}, "what": f"{c} in slot {s} of {r}: {what(o)}", "witness": src})
 for (r, s, c, g, lay), (src, o) in sorted(triples.items()):
